@@ -16,6 +16,7 @@ package bytes
 import (
 	"fmt"
 	"github.com/acquirecloud/golibs/errors"
+	"math"
 	"os"
 	"sync"
 	"sync/atomic"
@@ -73,6 +74,11 @@ func GetBlocksInSegment(blkSize int) int {
 		return -1
 	}
 
+	// a segment takes (blkSize*8+1)*blkSize bytes, and this size must not overflow int
+	if blkSize > (math.MaxInt/blkSize-1)/8 {
+		return -1
+	}
+
 	return (blkSize * 8) + 1
 }
 
@@ -98,6 +104,11 @@ func NewBlocks(bs int, bts Buffer, fit bool) (*Blocks, error) {
 	// should be at least one segment
 	if size < segmSize || (fit && size%segmSize != 0) {
 		return nil, fmt.Errorf("incorrect byte storage size=%d, should be divided on segment size=%d with no reminder: %w", size, segmSize, errors.ErrInvalid)
+	}
+
+	// the counter of available blocks is int32
+	if size/segmSize > int64(math.MaxInt32/(blksInSegm-1)) {
+		return nil, fmt.Errorf("the byte storage size=%d is too big for the block size=%d, the number of blocks may not exceed %d: %w", size, bs, math.MaxInt32, errors.ErrInvalid)
 	}
 
 	bks := new(Blocks)
